@@ -194,4 +194,23 @@ theorem replaceF_of_strictF : ∀ (f : Nat) (bs : Bytes) (s : List Char),
 theorem replace_of_strict (bs : Bytes) (s : List Char) (h : decodeStrict bs = some s) : decodeReplace bs = s :=
   replaceF_of_strictF _ _ _ h
 
+theorem decodeReplaceF_length_le_fuel : ∀ (f : Nat) (bs : Bytes), (decodeReplaceF f bs).length ≤ f := by
+  intro f
+  induction f with
+  | zero => intro bs; cases bs <;> simp [decodeReplaceF]
+  | succ f ih =>
+    intro bs
+    cases bs with
+    | nil => simp [decodeReplaceF]
+    | cons b bs =>
+      simp only [decodeReplaceF]
+      cases step (b :: bs) with
+      | char cp n => have := ih ((b :: bs).drop n); simp only [List.length_cons]; omega
+      | bad n => have := ih ((b :: bs).drop n); simp only [List.length_cons]; omega
+      | truncated => simp
+
+/-- decoding with errors='replace' never yields more characters than there are bytes -/
+theorem decodeReplace_length_le (bs : Bytes) : (decodeReplace bs).length ≤ bs.length :=
+  decodeReplaceF_length_le_fuel _ _
+
 end Proofs.Lemmas.Utf8
